@@ -1,16 +1,16 @@
 #!/bin/bash
-# tools/try.sh Cxx <patch.diff | -> [seeds...] : development aid. Runs ./check Cxx --no-proof on the clone /work/st
+# tools/try.sh Cxx <patch.diff | -> [seeds...] : development aid. Runs ./check Cxx --no-proof on the clone ${TRY_CLONE:-/work/st}
 # (reset to /repo HEAD, with the patch applied if given) and prints one line per seed: number of VIOLATION lines, classifiers.
 P=$1; PATCH=$2; shift 2; SEEDS=${@:-"5 6"}
-[ -d /work/st ] || git clone -q /repo /work/st
-git -C /work/st checkout -q -- . ; git -C /work/st fetch -q /repo HEAD; git -C /work/st reset -q --hard FETCH_HEAD
-if [ "$PATCH" != "-" ]; then git -C /work/st apply --whitespace=nowarn $PATCH || exit 2; fi
+[ -d ${TRY_CLONE:-/work/st} ] || git clone -q /repo ${TRY_CLONE:-/work/st}
+git -C ${TRY_CLONE:-/work/st} checkout -q -- . ; git -C ${TRY_CLONE:-/work/st} fetch -q /repo HEAD; git -C ${TRY_CLONE:-/work/st} reset -q --hard FETCH_HEAD
+if [ "$PATCH" != "-" ]; then git -C ${TRY_CLONE:-/work/st} apply --whitespace=nowarn $PATCH || exit 2; fi
 cd /verif
 for s in $SEEDS; do
-  out=$(VERIF_REPO=/work/st VERIF_SEED=$s timeout 1500 ./check $P --no-proof 2>&1); rc=$?
+  out=$(VERIF_REPO=${TRY_CLONE:-/work/st} VERIF_SEED=$s timeout 1500 ./check $P --no-proof 2>&1); rc=$?
   n=$(echo "$out" | grep -c "^VIOLATION")
   cls=$(for f in $(echo "$out" | grep "^VIOLATION" | sed 's/.*replay=\([^ ]*\).*/\1/'); do python3 -c "import json,sys; d=json.load(open('/verif/$f')); print(d.get('classifier') or d.get('no_longer_checks'))"; done | tr '\n' ' ')
   echo "$P $( [ "$PATCH" = "-" ] && echo clean || echo patched ) seed=$s rc=$rc violations=$n $cls"
   [ $rc -ge 2 ] && echo "$out" | tail -5
 done
-git -C /work/st checkout -q -- .
+git -C ${TRY_CLONE:-/work/st} checkout -q -- .
